@@ -189,7 +189,10 @@ Proof.
 Qed.
 
 Lemma startswith_fence_has l : startswith "```" l = true -> has_char "`" l = true.
-Proof. destruct l as [|c r]; cbn; [discriminate|]. destruct (Ascii.eqb_spec "`" c); [subst; reflexivity|discriminate]. Qed.
+Proof.
+  destruct l as [|c r]; [intros H; discriminate H|]. unfold startswith. cbn [prefix_rest has_char].
+  destruct (Ascii.eqb_spec "`" c) as [<-|N]; [intros _; reflexivity|intros H; discriminate H].
+Qed.
 
 (* a positive bracket counter was raised by a "(" *)
 Lemma count_parens_grow line : forall n u, count_parens n line = Some u -> n < u -> has_char "(" line = true.
@@ -242,21 +245,15 @@ Proof.
     inversion Hs; reflexivity. }
   destruct (buffer st) as [|y b] eqn:Eb.
   - subst ch. cbn in *. auto.
-  - exfalso. assert (NE : buffer st <> []) by (rewrite Eb; discriminate).
+  - exfalso.
     pose proof (lstrip_blank_all _ Hb) as All. destruct paren_not_pyspace as [P1 P2].
-    destruct (I2 NE) as [Hu|Hc].
-    + destruct (C Hu) as (x & Hx & Hp).
+    destruct (I2 ltac:(discriminate)) as [Hu|Hc].
+    + destruct (C Hu) as (x & Hx & Hp). rewrite Eb in Hx.
       assert (Hin : In x ch) by (subst ch; apply -> in_rev; right; exact Hx).
       rewrite (All _ (has_char_join_in _ _ _ Hin Hp)) in P1. discriminate.
-    + destruct (F Hc) as (l & bb & Er & Hl).
+    + destruct (F Hc) as (l & bb & Er & Hl). rewrite Eb in Er. cbn [rev] in Er.
       assert (Hin : In l ch) by (subst ch; cbn [rev]; rewrite Er; left; reflexivity).
       rewrite (All _ (has_char_join_in _ _ _ Hin (startswith_fence_has _ Hl))) in P2. discriminate.
-Qed.
-
-Lemma step_chunk_raise_or st line : forall ch, step_chunk st line = Some ch ->
-  (exists e, split_step st line = StRaise e) \/ (exists st', split_step st line = StCont st' \/ exists eq, split_step st line = StYield eq st').
-Proof.
-  intros ch _. destruct (split_step st line) as [st'|eq st'|e]; [right|right|left]; eauto.
 Qed.
 
 Theorem blank_chunk_single lines : forall st ch,
